@@ -31,6 +31,8 @@ THEOREMS = [
     "SleapVerif.C02.provider_agnostic_topdown",
     "SleapVerif.C02.provider_agnostic_asIs_partial",
     "SleapVerif.C02.provider_agnostic_counterexample",
+    "SleapVerif.C02.refined_overshoot_breaks_bound",
+    "SleapVerif.C02.single_roundtrip_border_counterexample",
 ]
 
 SCALES = {0.5: (1, 2), 0.75: (3, 4), 1.0: (1, 1), 1.5: (3, 2)}
@@ -38,6 +40,7 @@ TOL = 1e-3          # px, decoded coordinates (float32 pipeline vs exact rationa
 KNIFE = 2e-3        # a nearest-cell decision closer than ~1e-3 px to the midpoint is a knife edge
 THR = 0.2
 SIG_KNOWN = "labelsreader_no_preprocess"
+SIG_BORDER = "integral_refinement_patch_crosses_border"
 
 
 # ------------------------------------------------------------------ helpers
@@ -204,6 +207,49 @@ def gen_topdown_case(rng, refine=None, max_instances=None, counts=(0, 1, 1, 2, 2
     return {"pipeline": "topdown", "sc": sc, "os_c": os_c, "ms_c": ms_c, "si": si, "os_i": os_i, "ms_i": ms_i,
             "crop_hw": crop, "max_hw": max_hw, "batch": rng.randrange(1, 5), "refine": refine,
             "max_instances": max_instances, "n_nodes": n_nodes, "videos": videos}
+
+
+def gen_single_border(rng):
+    """Integral refinement with keypoints whose 5x5 refinement patch crosses the map border (left/top:
+    cells 0-1; right/bottom: the last two cells of a map that needs no stride padding): the region the
+    interior half-cell theorem excludes (F-C02b), sampled on every run."""
+    scale = rng.choice([0.5, 1.0, 1.0])
+    os_ = rng.choice([1, 2, 4])
+    ms = os_
+    H, W = 16 * rng.randrange(2, 6), 16 * rng.randrange(2, 6)
+    a = scale
+    frs = []
+    for _ in range(rng.randrange(1, 3)):
+        nW, nH = int(W * a) // os_, int(H * a) // os_
+        pts = []
+        for k in range(3):
+            side = rng.choice(["left", "top", "right", "bottom"])
+            gx, gy = rng.uniform(3, nW - 4), rng.uniform(3, nH - 4)
+            if side == "left":
+                gx = rng.uniform(0.02, 1.4)
+            elif side == "top":
+                gy = rng.uniform(0.02, 1.4)
+            elif side == "right":
+                gx = rng.uniform(nW - 2.4, nW - 1.02)
+            else:
+                gy = rng.uniform(nH - 2.4, nH - 1.02)
+            pts.append([round(gx * os_ / a * 16) / 16 + 1 / 64, round(gy * os_ / a * 16) / 16 + 1 / 64])
+        frs.append({"H": H, "W": W, "animals": [{"centroid": [W / 2, H / 2], "pts": pts}]})
+    return {"pipeline": "single", "scale": scale, "os": os_, "ms": ms, "max_hw": [None, None], "batch": rng.randrange(1, 3),
+            "refine": "integral", "n_nodes": 3, "videos": [frs], "family": "integral_patch_crosses_border"}
+
+
+WITNESS_BORDER = {"pipeline": "single", "scale": 1.0, "os": 2, "ms": 2, "max_hw": [None, None], "batch": 1,
+                  "refine": "integral", "n_nodes": 2,
+                  "videos": [[{"H": 32, "W": 32, "animals": [{"centroid": [16, 16], "pts": [[0.25, 16.25], [16.25, 30.75]]}]}]]}
+
+
+def replay_border(chk):
+    """F-C02b: 32x32, stride 2, integral: keypoint x = 0.25 (cell 0, patch crosses the left border)."""
+    rows, _ = impl_single(WITNESS_BORDER, "LabelsReader", frames_of(WITNESS_BORDER))
+    p, g = WITNESS_BORDER["videos"][0][0]["animals"][0]["pts"][0], rows[0]["pts"][0]
+    err = max(abs(g[0] - p[0]), abs(g[1] - p[1]))
+    return err > bound_px(2, 1.0, 1.0) + TOL, f"keypoint {p} returned at {g}: error {err:.3f} px = {err / 2:.2f} cell (bound 0.5 cell)"
 
 
 def gen_topdown_focus(rng, refine=None):
@@ -493,7 +539,7 @@ def check_single(chk, case):
             if provider == "VideoReader" and not shape_ok:
                 chk.disagree("network input shape == Decode.singleInputShape", small, row["hw"], m1[1:3])
             # ---- property oracle, always (independent of the model)
-            why = []
+            why, why_border = [], []
             bnd = bound_px(os_, s, eff)
             hin = pad_to(int((mh or fr.H) * Fr(sn, sd)), ms)
             win = pad_to(int((mw or fr.W) * Fr(sn, sd)), ms)
@@ -511,11 +557,21 @@ def check_single(chk, case):
                     if case["refine"] == "integral":
                         cx, cy, _, _ = channel_peak(row["cms"][k], None)
                         if not interior(cx, cy, row["cms"][k].shape):
-                            chk.tag("integral_border_patch_bound_not_asserted")
+                            # F-C02b: the 5x5 refinement patch is not contained in the map (zero padding
+                            # biases the offset inward); the bound IS evaluated, a failure carries the
+                            # structural signature and nothing else is excused
+                            chk.tag("integral_patch_crosses_border_sampled")
+                            w = oracle_point(p, row["pts"][k], row["vals"][k], bnd, f"node {k} (cell {cx},{cy} of "
+                                             f"{row['cms'][k].shape[1]}x{row['cms'][k].shape[0]})")
+                            if w:
+                                why_border.append(w)
                             continue
                 w = oracle_point(p, row["pts"][k], row["vals"][k], bnd, f"node {k}")
                 if w:
                     why.append(w)
+            if why_border and not bad1:
+                chk.fail("C02: integral refinement exceeds half a cell where its patch crosses the map border: "
+                         + "; ".join(why_border[:2]), {**small, "frame": [fr.video, fr.frame_idx]}, row["pts"], [SIG_BORDER])
             if bad1:
                 if as_coded:
                     chk.fail("C02: LabelsReader frame not resized but decode divides by input_scale: "
@@ -699,6 +755,7 @@ def check_topdown(chk, case, providers=("LabelsReader", "VideoReader")):
             n_w = math.ceil(pad_to(cw, ms_i) / os_i)
             n_h = math.ceil(pad_to(ch, ms_i) / os_i)
             robust = robust_inside(case, fr, an, eff)
+            why_border = []
             for k, p in enumerate(an.pts):
                 if p is not None:
                     # "the crop contains the animal": decided from the TRUE geometry (every admissible
@@ -719,11 +776,18 @@ def check_topdown(chk, case, providers=("LabelsReader", "VideoReader")):
                     if refine == "integral":
                         cx, cy, _, _ = channel_peak(r["cms"][k], None)
                         if not interior(cx, cy, r["cms"][k].shape):
-                            chk.tag("integral_border_patch_bound_not_asserted")
+                            chk.tag("integral_patch_crosses_border_sampled")
+                            w = oracle_point(p, r["pts"][k], r["vals"][k], bnd, f"node {k} (crop cell {cx},{cy})")
+                            if w:
+                                why_border.append(w)
                             continue
                 w = oracle_point(p, r["pts"][k], r["vals"][k], bnd, f"node {k}")
                 if w:
                     why.append(w)
+            if why_border and not bad:
+                chk.fail("C02: integral refinement exceeds half a cell where its patch crosses the crop-map border: "
+                         + "; ".join(why_border[:2]), {**small, "frame": [fr.video, fr.frame_idx], "animal": mt["ai"]},
+                         {"pts": r["pts"], "bbox_tl": r["bbox_tl"]}, [SIG_BORDER])
             if why:
                 chk.fail("C02 fails on TopDownPredictor: " + "; ".join(why[:3]),
                          {**small, "frame": [fr.video, fr.frame_idx], "animal": mt["ai"]},
@@ -809,6 +873,10 @@ def main(chk: Check):
         chk.known_replay("F-C02", still_fails=still, detail=detail)
         chk.extra["F-C02_witness"] = detail
 
+    if any(e["id"] == "F-C02b" for e in chk.known):
+        still, detail = replay_border(chk)
+        chk.known_replay("F-C02b", still_fails=still, detail=detail)
+        chk.extra["F-C02b_witness"] = detail
     cases = []
     for f in sorted((CORPUS / "C02").glob("*.json")) if (CORPUS / "C02").exists() else []:
         cases.append(json.loads(f.read_text()))
@@ -818,6 +886,8 @@ def main(chk: Check):
         cases.append(gen_single_case(rng, refine=("integral" if i % 3 == 2 else None)))
     for i in range(n_top):
         cases.append(gen_topdown_case(rng, refine=("integral" if i % 3 == 2 else None)))
+    for i in range(chk.n(8, 80)):
+        cases.append(gen_single_border(rng))
     for i in range(chk.n(14, 150)):
         cases.append(gen_topdown_focus(rng, refine=("integral" if i % 4 == 3 else None)))
     run_cases(chk, cases)
